@@ -19,8 +19,8 @@
 (*     or 'stopped after <step>' (ERROR if fault_on_stop else WARN),              *)
 (*   - when the thread is done it polls the module: the cached status leaves BUSY.*)
 (*   - when no sequence is alive and the last one neither failed nor was stopped,  *)
-(*     the status is what the module's hook returns (the class docstring names    *)
-(*     _ext_state(); the code calls readHwStatus()).                              *)
+(*     the status is what the documented hook readHwStatus() returns; a module    *)
+(*     that only defines the formerly documented _ext_state() is plain IDLE.      *)
 (* Loose (not promised): the status text before the first step is active and      *)
 (* between a wait and the next call; whether a stop that arrives during the wait  *)
 (* after the very last call is still reported; whether cleanup runs when a stop   *)
@@ -30,8 +30,8 @@ EXTENDS Naturals, Sequences, FiniteSets, TLC
 
 CONSTANTS Kinds,          \* step kinds used in sequences (subset of AllKinds)
           MaxLen,         \* sequences have 1 .. MaxLen steps
-          Hooks,          \* subset of {"none", "hw", "ext"}: the module has no idle-status hook / readHwStatus() /
-                          \* _ext_state() (the hook the class docstring names)
+          Hooks,          \* subset of {"none", "hw", "ext"}: the module has no idle-status hook / readHwStatus()
+                          \* (the documented hook) / only _ext_state() (a name that is not a hook: ignored)
           FaultModes      \* subset of {"ee","ew","we","ww"}: init_sequencer(fault_on_error, fault_on_stop),
                           \* 1st letter: an error gives ERROR / WARN, 2nd letter: a stop gives ERROR / WARN
 
@@ -82,7 +82,7 @@ HookStatus == [code |-> "WARN", word |-> "hook", k |-> 0]
 Sev(flag) == IF flag THEN "ERROR" ELSE "WARN"
 StatusOf(p, o, kk) ==
     IF p # "none" THEN [code |-> "BUSY", word |-> "moving", k |-> kk]
-    ELSE CASE o.kind = "none"    -> IF hook = "none" THEN Idle ELSE HookStatus
+    ELSE CASE o.kind = "none"    -> IF hook = "hw" THEN HookStatus ELSE Idle
            [] o.kind = "error"   -> [code |-> Sev(FaultOnError), word |-> "during", k |-> o.k]
            [] o.kind = "stopped" -> [code |-> Sev(FaultOnStop), word |-> o.mode, k |-> o.k]
 Status == StatusOf(pc, out, k)
@@ -151,7 +151,7 @@ Wake ==
              ELSE Terminate(NoOut) /\ UNCHANGED <<k, i>>
     /\ UNCHANGED <<seq, n, res, stopflag, cached, last, fm, hook>>
 
-(* DEVIATION of the code as it stands (never part of SNext; used by Trace_Sequencer and by     *)
+(* DEVIATION of the code as it stood before cc0eb0a (never part of SNext; used by Trace_Sequencer and by     *)
 (* MC_Sequencer_asimpl.cfg, which is expected to violate StopNoNewStep): the flag is examined    *)
 (* only after a call, so a stop that arrives during the wait lets the next call begin           *)
 Dev_LateStop ==
